@@ -160,3 +160,16 @@ package server
 //@   requires e != nil
 //@   modifies nothing
 //@   ensures result == ite(length > tcpSmallFrame, e.largeTokens, e.smallTokens)
+
+//@ # ---- C15 / C10 ("the same whether or not the fast packer handled them"; "carry only their own bytes"): when the fast
+//@ # packer declines a reply, the library packs it into the job's reused TX slab. The library steps over octets it does
+//@ # not write; the slab region handed to it is therefore all zero, as the fresh buffer of Msg.Pack is
+//@ func (*tcpJob).WriteMsg
+//@   abstract
+//@   nosafety all pre
+//@   assert at call (*github.com/miekg/dns.Msg).PackBuffer#1: forall i int :: {arg1[i]} 0 <= i && i < len(arg1) ==> arg1[i] == 0
+//@ func (*udpJob).WriteMsg
+//@   abstract
+//@   nosafety all pre
+//@   assert at call (*github.com/miekg/dns.Msg).PackBuffer#1: forall i int :: {arg1[i]} 0 <= i && i < len(arg1) ==> arg1[i] == 0
+
